@@ -402,4 +402,250 @@ def ctx_set_value (id : Str) (v : Value) : M ρ (Res Unit) := fun s =>
   match setValue s id v with
   | (r, s) => (.val r, s)
 
+/-! ## ---- tree-builder extension (T2): divergence, loops, `&mut` out-values, places, `Vec` stack vocabulary ---- -/
+
+/-! ### may-diverge computations
+
+A function whose body contains a `loop` / `while` (or that is recursive outside the `for child in children`
+pattern, or that calls such a function) is translated to an `Option`-valued definition: `none` is divergence.
+Its body is an expression of `D ρ`; a loop body is an expression of `L ρ σ` (σ: the tuple of the local
+variables the loop assigns), which adds the two loop exits `break` / `continue`. No termination argument
+is needed to define the translation (`partial_fixpoint`); that the result is `some _` is a theorem of the
+agreement proofs. -/
+
+/-- outcome of a statement inside a loop body: a value, an early `return`, `break`, `continue` (the
+last two carry the current values of the loop's variables) -/
+inductive LFlow (ρ σ α : Type) where
+  | val (a : α)
+  | ret (r : ρ)
+  | brk (s : σ)
+  | cont (s : σ)
+
+/-- expressions of a function that may diverge: `none` = divergence -/
+def D (ρ α : Type) : Type := Option (Flow ρ α)
+/-- expressions of a loop body (inside a function that may diverge) -/
+def L (ρ σ α : Type) : Type := Option (LFlow ρ σ α)
+
+instance : Monad (D ρ) where
+  pure a := some (.val a)
+  bind x f := match x with
+    | none => none
+    | some (.val a) => f a
+    | some (.ret r) => some (.ret r)
+
+instance : Monad (L ρ σ) where
+  pure a := some (.val a)
+  bind x f := match x with
+    | none => none
+    | some (.val a) => f a
+    | some (.ret r) => some (.ret r)
+    | some (.brk s) => some (.brk s)
+    | some (.cont s) => some (.cont s)
+
+/-- the function boundary of a function that may diverge -/
+def D.run : D ρ ρ → Option ρ
+  | none => none
+  | some f => some f.run
+
+instance : MonadFlow ρ (D ρ) := ⟨fun x => some x⟩
+instance : MonadFlow ρ (L ρ σ) := ⟨fun x => match x with
+  | .val a => some (.val a)
+  | .ret r => some (.ret r)⟩
+
+/-- monads in which a may-diverge computation can run: function bodies (`D`) and loop bodies (`L`) -/
+class MonadD (ρ : outParam Type) (m : Type → Type) where
+  liftD : D ρ α → m α
+export MonadD (liftD)
+instance : MonadD ρ (D ρ) := ⟨fun x => x⟩
+instance : MonadD ρ (L ρ σ) := ⟨fun x => match x with
+  | none => none
+  | some (.val a) => some (.val a)
+  | some (.ret r) => some (.ret r)⟩
+
+/-- calling a function that may diverge: its divergence is the caller's -/
+def callD [MonadD ρ m] (o : Option α) : m α :=
+  liftD (match o with
+    | none => (none : D ρ α)
+    | some a => some (.val a))
+
+/-- `break` -/
+def brk (s : σ) : L ρ σ α := some (.brk s)
+/-- `continue` -/
+def cont (s : σ) : L ρ σ α := some (.cont s)
+
+section order
+open Lean.Order
+
+instance : PartialOrder (D ρ α) := inferInstanceAs (PartialOrder (Option (Flow ρ α)))
+instance : CCPO (D ρ α) := inferInstanceAs (CCPO (Option (Flow ρ α)))
+instance : PartialOrder (L ρ σ α) := inferInstanceAs (PartialOrder (Option (LFlow ρ σ α)))
+instance : CCPO (L ρ σ α) := inferInstanceAs (CCPO (Option (LFlow ρ σ α)))
+
+instance : MonoBind (D ρ) where
+  bind_mono_left h := by
+    cases h
+    · exact FlatOrder.rel.bot
+    · exact FlatOrder.rel.refl
+  bind_mono_right {_ _ a _ _} h := by
+    rcases a with _ | _ | _
+    · exact FlatOrder.rel.refl
+    · exact h _
+    · exact FlatOrder.rel.refl
+
+instance : MonoBind (L ρ σ) where
+  bind_mono_left h := by
+    cases h
+    · exact FlatOrder.rel.bot
+    · exact FlatOrder.rel.refl
+  bind_mono_right {_ _ a _ _} h := by
+    rcases a with _ | _ | _ | _ | _
+    · exact FlatOrder.rel.refl
+    · exact h _
+    all_goals exact FlatOrder.rel.refl
+
+@[partial_fixpoint_monotone]
+theorem D.monotone_run {γ : Sort w} [PartialOrder γ] (f : γ → D ρ ρ) (h : monotone f) :
+    monotone (fun x => D.run (f x)) := by
+  intro a b hab
+  have h' : f a ⊑ f b := h a b hab
+  show D.run (f a) ⊑ D.run (f b)
+  generalize f a = x at h' ⊢; generalize f b = y at h' ⊢
+  cases h' with
+  | bot => exact FlatOrder.rel.bot
+  | refl => exact FlatOrder.rel.refl
+
+@[partial_fixpoint_monotone]
+theorem monotone_callD_D {γ : Sort w} [PartialOrder γ] (f : γ → Option α) (h : monotone f) :
+    monotone (fun x => (callD (f x) : D ρ α)) := by
+  intro a b hab
+  have h' : f a ⊑ f b := h a b hab
+  show (callD (f a) : D ρ α) ⊑ callD (f b)
+  generalize f a = x at h' ⊢; generalize f b = y at h' ⊢
+  cases h' with
+  | bot => exact FlatOrder.rel.bot
+  | refl => exact FlatOrder.rel.refl
+
+@[partial_fixpoint_monotone]
+theorem monotone_callD_L {γ : Sort w} [PartialOrder γ] (f : γ → Option α) (h : monotone f) :
+    monotone (fun x => (callD (f x) : L ρ σ α)) := by
+  intro a b hab
+  have h' : f a ⊑ f b := h a b hab
+  show (callD (f a) : L ρ σ α) ⊑ callD (f b)
+  generalize f a = x at h' ⊢; generalize f b = y at h' ⊢
+  cases h' with
+  | bot => exact FlatOrder.rel.bot
+  | refl => exact FlatOrder.rel.refl
+
+end order
+
+/-- `loop { body }` (also `while c { b }` = `loop { if c { b } else { break } }` and
+`while let P = e { b }` = `loop { match e { P => b, _ => break } }`): run the body on the current values of
+the loop's variables until it breaks (value: the final values) or returns; falling off the end of the body and
+`continue` start the next pass. A loop that never exits has no value: `none`. -/
+def loopFix (body : σ → L ρ σ σ) (st : σ) : D ρ σ :=
+  match body st with
+  | none => none
+  | some (.ret r) => some (.ret r)
+  | some (.brk s) => some (.val s)
+  | some (.val s) => loopFix body s
+  | some (.cont s) => loopFix body s
+partial_fixpoint
+
+/-- peekable iteration: `let mut it = xs.iter().peekable(); while let Some(x) = it.next() { … it.peek() … }`
+is the iteration over the list with one element of lookahead (`next` = the element `it.peek()` would return) -/
+def forPeek (l : List α) (st : σ) (body : α → Option α → σ → L ρ σ σ) : D ρ σ :=
+  match l with
+  | [] => some (.val st)
+  | a :: l =>
+    match body a l.head? st with
+    | none => none
+    | some (.ret r) => some (.ret r)
+    | some (.brk s) => some (.val s)
+    | some (.val s) => forPeek l s body
+    | some (.cont s) => forPeek l s body
+
+/-- a call of a may-diverge function from a function that is translated as total (table `CONVERGED_CALLS` of
+translate_fn.py): divergence of the callee is the designated outcome `panic "<callee>: diverges"`, which no
+Model function produces — agreement with the Model therefore includes termination of the callee. -/
+def converged (site : Str) (o : Option (Res α)) : Res α :=
+  match o with
+  | some r => r
+  | none => .error (.panic site)
+
+/-! ### functions with `&mut` parameters / `&mut self` that return a `Result`
+
+Such a function returns the pair (result, final values of the `&mut` places): `ρ = Res β × ω`. An early
+exit (`?`, a panic) returns the CURRENT values of the places next to the error, like an explicit `return`. -/
+
+/-- `e?` -/
+def try_out [MonadFlow (Res β × ω) m] (e : Res α) (cur : ω) : m α :=
+  MonadFlow.liftFlow (match e with
+    | .ok a => Flow.val a
+    | .error err => Flow.ret (.error err, cur))
+/-- a panic -/
+def panic_out [MonadFlow (Res β × ω) m] (site : Str) (cur : ω) : m α :=
+  MonadFlow.liftFlow (Flow.ret (.error (.panic site), cur))
+/-- `Option::unwrap` -/
+def unwrap_out [MonadFlow (Res β × ω) m] (site : Str) (o : Option α) (cur : ω) : m α :=
+  MonadFlow.liftFlow (match o with
+    | some v => Flow.val v
+    | none => Flow.ret (.error (.panic site), cur))
+/-- `a[i]` -/
+def index_out [MonadFlow (Res β × ω) m] (site : Str) (a : List α) (i : Nat) (cur : ω) : m α :=
+  MonadFlow.liftFlow (match a[i]? with
+    | some v => Flow.val v
+    | none => Flow.ret (.error (.panic site), cur))
+
+/-! ### `Vec` as a stack; places -/
+
+instance : Len (List Node) := ⟨List.length⟩
+instance : Len (List Token) := ⟨List.length⟩
+/-- `Vec::pop` (`&mut self`): the popped element and the new vector -/
+def pop (a : List α) : Option α × List α := (a.getLast?, a.dropLast)
+/- (the write through a reference obtained from `v.last_mut()` is phase 4's `Rs.set_last`, defined above: `v.dropLast ++ [x]`) -/
+/-- the write through `&mut v[i]` -/
+def set_index (a : List α) (i : Nat) (x : α) : List α := a.set i x
+/-- `Iterator::peekable`, `Option<&T>::copied` (identity, like `cloned`) -/
+def copied {φ : Type} (a : φ) : φ := a
+
+/-! ### derived `PartialEq` of `Operator` / `Token`, `mem::discriminant` -/
+
+/-- `#[derive(PartialEq)]` on `Operator`: same variant, equal payloads (`Value`: `Value.beq`) -/
+def Operator.peq (a b : Operator) : Bool :=
+  match a, b with
+  | .const x, .const y => Value.beq x y
+  | .varWrite x, .varWrite y => x == y
+  | .varRead x, .varRead y => x == y
+  | .fn x, .fn y => x == y
+  | _, _ => a.kind == b.kind
+instance : PEq Operator := ⟨Operator.peq⟩
+
+/-- `#[derive(PartialEq)]` on `Token`: same variant, equal payloads (`f64`: IEEE `==`) -/
+def Token.peq : Token → Token → Bool
+  | .identifier x, .identifier y => x == y
+  | .float x, .float y => x == y
+  | .int x, .int y => x == y
+  | .boolean x, .boolean y => x == y
+  | .string x, .string y => x == y
+  | .plus, .plus | .minus, .minus | .star, .star | .slash, .slash | .percent, .percent | .hat, .hat
+  | .eq, .eq | .neq, .neq | .gt, .gt | .lt, .lt | .geq, .geq | .leq, .leq | .and, .and | .or, .or | .not, .not
+  | .lBrace, .lBrace | .rBrace, .rBrace
+  | .assign, .assign | .plusAssign, .plusAssign | .minusAssign, .minusAssign | .starAssign, .starAssign
+  | .slashAssign, .slashAssign | .percentAssign, .percentAssign | .hatAssign, .hatAssign
+  | .andAssign, .andAssign | .orAssign, .orAssign | .comma, .comma | .semicolon, .semicolon => true
+  | _, _ => false
+instance : PEq Token := ⟨Token.peq⟩
+
+/-- `==` on `Option<T>` -/
+instance [PEq α] : PEq (Option α) := ⟨fun a b => match a, b with
+  | some x, some y => eq x y
+  | none, none => true
+  | _, _ => false⟩
+
+/-- `mem::discriminant` of an `Operator`: its variant (compared with `==`) -/
+def discriminant (o : Operator) : OpKind := o.kind
+instance : PEq OpKind := ⟨fun a b => a == b⟩
+
+/-! ## ---- end of the tree-builder extension (T2) ---- -/
+
 end Evalexpr.Rs
